@@ -50,3 +50,8 @@ package utils
 //@ func (r *RTTStats) HasMeasurement
 //@   props C06
 //@   modifies nothing
+
+//@ func (r *RTTStats) ResetForPathMigration
+//@   props C20
+//@   ensures [no-measurement] !r.hasMeasurement
+//@   modifies r.hasMeasurement, heap(atomic.Int64.v)
